@@ -67,7 +67,7 @@ pub fn nontrivial(prop: &str, r: &J) -> bool {
         "C05" => c.getu("upgrade_none") > 0 || c.getu("upgrade_after_unowned") > 0,
         "C08" | "C09" => e.get("lin").map(|l| l.getu("concurrent_pairs") > 0).unwrap_or(false),
         "C10" => probes.getu("new_many_0") + probes.getu("weak_many") + probes.getu("new_many") + probes.getu("new_many_iter") > 0,
-        "C12" => c.getu("c12_checked") + c.getu("c12_window_checked") > 0 || e.get("sweep").is_some(),
+        "C12" => c.getu("c12_checked") + c.getu("c12_window_checked") > 0 || c.getu("count_words_checked_at_quiescent_points") > 0,
         "C13" => c.getu("closures_run") > 0 && probes.getu("closure_ran_while_some_cs_active") > 0,
         "C14" => ebr.getu("pinned_across_advance") > 0,
         "C15" => c.getu("closures_run") > 0 && (faults.getu("exit_pending") > 0 || probes.getu("defer_boxed_shape") > 0),
